@@ -547,6 +547,11 @@ func c08GraphUnit() *Unit {
 				"sub/mid.yml": "version: '3'\nincludes:\n  leaf:\n    taskfile: ./leaf.yml\n    aliases: [l]\n", "sub/leaf.yml": leaf("leaf")}, "mid:leaf:t", []string{"T=leaf:t PWD=sub IV="}, 0},
 			{"nested-map-form-include-without-dir-in-subdirectory-via-alias", map[string]string{"Taskfile.yml": "version: '3'\nincludes:\n  mid: ./sub/mid.yml\n",
 				"sub/mid.yml": "version: '3'\nincludes:\n  leaf:\n    taskfile: ./leaf.yml\n    aliases: [l]\n", "sub/leaf.yml": leaf("leaf")}, "mid:l:t", []string{"T=leaf:t PWD=sub IV="}, 0},
+			// included files whose path merely starts like a remote reference (no scheme): they are
+			// files, resolved relative to the including Taskfile like any other
+			{"include-path-starting-with-git", map[string]string{"Taskfile.yml": "version: '3'\nincludes:\n  g: githooks/Taskfile.yml\n", "githooks/Taskfile.yml": leaf("g")}, "g:t", []string{"T=g:t PWD=proj IV="}, 0},
+			{"nested-include-path-starting-with-git", map[string]string{"Taskfile.yml": "version: '3'\nincludes:\n  mid: ./sub/mid.yml\n", "sub/mid.yml": "version: '3'\nincludes:\n  g: git-tools.yml\n", "sub/git-tools.yml": leaf("g")}, "mid:g:t", []string{"T=g:t PWD=proj IV="}, 0},
+			{"include-path-starting-with-http-word", map[string]string{"Taskfile.yml": "version: '3'\nincludes:\n  h: httpd/Taskfile.yml\n", "httpd/Taskfile.yml": leaf("h")}, "h:t", []string{"T=h:t PWD=proj IV="}, 0},
 			{"cycle-2", map[string]string{"Taskfile.yml": "version: '3'\nincludes:\n  a: ./a.yml\n", "a.yml": "version: '3'\nincludes:\n  r: ./Taskfile.yml\n"}, "x", nil, 110},
 			{"cycle-3", map[string]string{"Taskfile.yml": "version: '3'\nincludes:\n  a: ./a.yml\n", "a.yml": "version: '3'\nincludes:\n  b: ./b.yml\n", "b.yml": "version: '3'\nincludes:\n  a: ./a.yml\n"}, "x", nil, 110},
 			{"self-include", map[string]string{"Taskfile.yml": "version: '3'\nincludes:\n  me: ./Taskfile.yml\n"}, "x", nil, 110},
